@@ -22,6 +22,20 @@ Decides from the source:
       run here on the inference classes);
   L6  fit(): a bare scatterer gets the default model; strategy names map to
       the documented classes; a sampling strategy is rejected.
+  L7  result bookkeeping: in both least-squares strategies the returned
+      FitResult gets the fit's data (or its flattened / sub-sampled form), the
+      fit's model and the strategy itself, each in its own constructor slot;
+      interval i is UncertainValue(fitted value i, unscaled error i, name i);
+      the residual handed to the optimiser is model._residuals(values, data,
+      model._find_noise(values, data)) with every argument in the slot the
+      callee declares, followed (nmpfit) by sqrt(lnprior(guess) - lnprior(value))
+      per parameter, prior i evaluated at value i; Model._residuals is
+      (forward - data) / noise;
+  L8  the reported best fit is the forward model at the reported parameters:
+      FitResult._parameters / _names / parameters are read position-wise from
+      the intervals; .hologram is forward(_parameters), .max_lnprob is
+      model.lnposterior(_parameters, data), each computed once and remembered
+      under its own attribute; forward() calls model.forward(pars, schema).
 Not decided: fixed point, monotone improvement, recovery, repeatability of the
 numbers (optimiser dynamics).
 """
@@ -33,7 +47,7 @@ from hpstatic.loader import AnalysisError
 from hpstatic.terms import (sym, intern, show, subterms, calls_in, NONE, num, kw,
                             TRUE, FALSE)
 from . import c07, c15
-from .common import init_of, init_params, final_self, path_has
+from .common import init_of, init_params, final_self, path_has, as_difference
 from hpstatic.logic import cmp_is
 
 MUTATION_TARGETS = {'holopy/inference/nmpfit.py': ['fit', 'initialize_fit', 'calc_residuals', 'cleanup_from_fit', 'minimize', 'unscale_pars_from_minimizer', 'get_errors_from_minimizer'], 'holopy/inference/scipyfit.py': ['fit', 'minimize', 'unscale_pars_from_minimizer'], 'holopy/inference/result.py': ['_serialize_as_dataset', '_unserialize', 'forward'], 'holopy/inference/interface.py': ['fit', 'validate_strategy']}
@@ -73,6 +87,9 @@ def run(check, prog):
     reusable(check, prog)
     saved(check, prog)
     entry(check, prog)
+    assembly(check, prog)
+    reported(check, prog)
+    wiring(check, prog)
 
 
 # ----------------------------------------------------------------------
@@ -92,16 +109,28 @@ def bounds(check, prog):
     else:
         parinfo = dict(mp[0]['kwargs']).get('parinfo')
         lp = None
+        dname = tname = None
         for l in it.loops.values():
-            if 'd' in l['vars'] and l['iter'] == sym('parameters'):
-                lp = l
+            if l['iter'] != sym(fd.args.args[1].arg):
+                continue
+            for n_, (i0, st_) in l['vars'].items():
+                if st_ is None:
+                    continue
+                # the per-parameter entry: the dict holding 'limits'
+                if any(x[0] == 'dict' and any(k == ('const', 'limits') for k, _ in x[1])
+                       for x in subterms(st_)) and not (st_[0] == 'mut'):
+                    lp, dname = l, n_
+            for n_, (i0, st_) in l['vars'].items():
+                if st_ is not None and st_[0] == 'mut' and st_[2] == 'append':
+                    tname = n_
         okp = parinfo is not None and parinfo[0] == 'loop' and lp is not None
         check.require(okp, 'L1-bounds-reach-optimiser', 'NmpfitStrategy parinfo',
                       'mpfit receives the parameter table built from the priors', loc,
                       fail_detail='parinfo = %s' % (show(parinfo)[:120] if parinfo else None))
         if okp:
-            d = lp['vars']['d'][1]
-            par = [x for x in subterms(d) if x[0] == 'elem' and x[1] == sym('parameters')][0]
+            d = lp['vars'][dname][1]
+            par = [x for x in subterms(d) if x[0] == 'elem' and
+                   x[1] == sym(fd.args.args[1].arg)][0]
             for side, idx, attr, cmpop, inf in (
                     ('lower', 0, 'lower_bound', '>', intern(('un', '-', ('extref', 'numpy.inf')))),
                     ('upper', 1, 'upper_bound', '<', intern(('extref', 'numpy.inf')))):
@@ -114,7 +143,21 @@ def bounds(check, prog):
                 # guarded by hasattr(par, bound) and bound finite
                 guard = [x for x in subterms(d) if x[0] == 'ite' and
                          any(cmp_is(y, cmpop, bound, inf) for y in subterms(x[1]))]
-                good = bool(lim) and bool(en) and bool(guard)
+                # ... and both stores happen exactly when the bound exists and is finite
+                hb = intern(('call', 'hasattr', (par, ('const', attr)), ()))
+                sts = [e for e in it.effects if e['kind'] == 'setitem' and
+                       e['key'] == num(idx) and e['value'] in (want, TRUE)]
+
+                def when(e):
+                    cs = [(t, p) for t, p in e['cond'] if t[0] != 'loop-iter']
+                    if len(cs) != 1 or not cs[0][1] or cs[0][0][0] != 'bool' or \
+                            cs[0][0][1] != 'and':
+                        return False
+                    parts = cs[0][0][2]
+                    return len(parts) == 2 and hb in parts and any(
+                        cmp_is(y, cmpop, bound, inf) for y in parts)
+                good = bool(lim) and bool(en) and bool(guard) and len(sts) == 2 and \
+                    all(when(e) for e in sts)
                 check.require(good, 'L1-bounds-reach-optimiser',
                               'NmpfitStrategy %s bound' % side,
                               "limits[%d] = scale(prior.%s) and limited[%d] = True "
@@ -122,8 +165,9 @@ def bounds(check, prog):
                               fail_detail='the %s bound of the prior does not reach the '
                               'optimiser\'s limits table' % side)
             # the table is appended per parameter
-            st = lp['vars'].get('nmp_pars', (None, None))[1]
-            check.require(st is not None and st[0] == 'mut' and st[2] == 'append',
+            st = lp['vars'].get(tname, (None, None))[1]
+            check.require(st is not None and st[0] == 'mut' and st[2] == 'append' and
+                          st[3] == (d,),
                           'L1-bounds-reach-optimiser', 'NmpfitStrategy table',
                           'one entry per parameter, in order', loc)
     q = N + '.calc_residuals'
@@ -186,11 +230,18 @@ def scaling(check, prog):
     it = Interp(prog, max_depth=1, opaque=[N + '.unscale_pars_from_minimizer'],
                 inline_new=False)
     res = it.analyze(q)
-    lp = [l for l in it.loops.values() if 'd' in l['vars']]
+    lp = []
+    for l in it.loops.values():
+        for n_, (i0, st_) in l['vars'].items():
+            if st_ is not None and st_[0] != 'mut' and any(
+                    x[0] == 'dict' and any(k == ('const', 'value') for k, _ in x[1])
+                    for x in subterms(st_)):
+                lp.append((l, n_))
     ok = bool(lp)
     if ok:
-        d = lp[0]['vars']['d'][1]
-        par = [x for x in subterms(d) if x[0] == 'elem' and x[1] == sym('parameters')][0]
+        d = lp[0][0]['vars'][lp[0][1]][1]
+        par = [x for x in subterms(d) if x[0] == 'elem' and
+               x[1] == sym(fd.args.args[1].arg)][0]
         want = intern(('call', ('attr', par, 'scale'), (('attr', par, 'guess'),), ()))
         ok = any(x[0] == 'dict' and any(k == ('const', 'value') and v == want
                                         for k, v in x[1]) for x in subterms(d))
@@ -281,8 +332,15 @@ def names(check, prog):
                       prog.loc(q, fd))
     q = INF + 'cmaes.CmaStrategy.fit'
     fd = prog.func(q)
-    src = ast.unparse(fd)
-    ok = 'par_names = model._parameter_names' in src and 'name=par' in src
+    it = Interp(prog, max_depth=1, inline_new=False, opaque=[
+        INF + 'cmaes.run_cma', MD + 'make_subset_data'])
+    res = it.analyze(q)
+    uv = [c for c in it.calls if c['name'].endswith('UncertainValue')]
+    ok = bool(uv)
+    for c in uv:
+        nm = dict(c['kwargs']).get('name')
+        ok = ok and nm is not None and nm[0] == 'elem' and \
+            nm[1] == ('attr', sym(fd.args.args[1].arg), '_parameter_names')
     check.require(ok, 'L3-result-names', 'CmaStrategy.fit',
                   "intervals are named by model._parameter_names", prog.loc(q, fd))
 
@@ -600,3 +658,428 @@ def entry(check, prog):
     check.require(ok, 'L6-strategy-table', 'validate_strategy',
                   'a strategy without the requested operation is rejected',
                   prog.loc(q, prog.func(q)))
+
+
+# ----------------------------------------------------------------------
+def bind(prog, qual, args, kwargs):
+    """{parameter name: argument term} of a call to the method `qual` (self
+    excluded)"""
+    fd = prog.func(qual)
+    names = [a.arg for a in fd.args.args][1:]
+    out = dict(zip(names, args))
+    for k, v in kwargs:
+        out[k] = v
+    return out
+
+
+def roots_of(t, candidates):
+    return {c for c in candidates if any(x == c for x in subterms(t))}
+
+
+def assembly(check, prog):
+    MODEL = INF + 'model.Model'
+    for q, opaque in ((N + '.fit', [N + '.minimize', MD + 'make_subset_data']),
+                      (S + '.fit', [S + '.minimize', MD + 'flat',
+                                    S + '._calculate_unit_noise_errors_from_fit',
+                                    MD + 'make_subset_data',
+                                    S + '.unscale_pars_from_minimizer'])):
+        fd = prog.func(q)
+        loc = prog.loc(q, fd)
+        short = q.split('.')[-2] + '.fit'
+        me, model, data = [sym(a.arg) for a in fd.args.args[:3]]
+        it = Interp(prog, max_depth=2, inline_new=False, opaque=opaque)
+        res = it.analyze(q)
+        v = res.ret
+        ok = v[0] == 'new' and v[1] == R
+        detail = 'returns %s' % show(v)[:120]
+        if ok:
+            a = dict(v[3])
+            dt, mt, stt = a.get('data'), a.get('model'), a.get('strategy')
+            ok = dt is not None and mt == model and stt is not None and \
+                roots_of(dt, (model, data, me)) == {data} | (
+                    {me} if any(x[0] == 'attr' and x[1] == me for x in subterms(dt))
+                    else set())
+            # strategy: self, possibly with per-fit attributes layered on top
+
+            def bases(t):
+                if t[0] == 'upd':
+                    return bases(t[1])
+                if t[0] == 'ite':
+                    return bases(t[2]) | bases(t[3])
+                return {t}
+            t = None
+            if ok:
+                bs = bases(stt)
+                ok = bs == {me}
+                t = sorted(bs, key=lambda x: x._n)[0]
+            detail = 'FitResult(data=%s, model=%s, strategy=%s)' % (
+                show(dt)[:60] if dt else None, show(mt)[:40] if mt else None,
+                show(t)[:40] if t else None)
+        check.require(ok, 'L7-result-slots', short,
+                      'FitResult(data <- the data fitted, model <- the model, strategy '
+                      '<- self)', loc, fail_detail=detail)
+        # intervals
+        uv = [x for x in subterms(v) if x[0] == 'new' and x[1].endswith('UncertainValue')]
+        ok = len(uv) >= 1
+        detail = 'no UncertainValue built'
+        for u in uv[:1]:
+            a = dict(u[3])
+            g, p, nme = a.get('guess'), a.get('plus'), a.get('name')
+            ok = g is not None and p is not None and nme is not None and \
+                g[0] == 'elem' and p[0] == 'elem' and nme[0] == 'elem' and \
+                g[2] == p[2] == nme[2]
+            if ok:
+                fitted, errs, nms = g[1], p[1], nme[1]
+                mn = q.rpartition('.')[0] + '.minimize'
+                okf = fitted[0] == 'idx' and fitted[2] == num(0) and \
+                    fitted[1][0] == 'call' and (
+                        fitted[1][1] == mn or
+                        (isinstance(fitted[1][1], tuple) and fitted[1][1][2] == 'minimize'))
+                oke = any(x[0] == 'attr' and x[2] == 'unscale' for x in subterms(errs)) \
+                    or bool(calls_in(errs, 'unscale_pars_from_minimizer'))
+                okn = nms == ('attr', model, '_parameter_names')
+                ok = okf and oke and okn
+                detail = 'UncertainValue(%s, %s, name=%s)' % (
+                    show(g)[:60], show(p)[:60], show(nme)[:60])
+        check.require(ok, 'L7-interval-slots', short,
+                      'interval i = UncertainValue(fitted value i, unscaled error i, '
+                      'name = model name i)', loc, fail_detail=detail)
+    # ---- residual assembly
+    def residual_slots(val, where, loc, pv, data_t, model_t):
+        rs = calls_in(val, '_residuals')
+        ok = len(rs) >= 1
+        detail = 'no model._residuals call in %s' % show(val)[:120]
+        if ok:
+            c = rs[0]
+            okc = isinstance(c[1], tuple) and c[1][0] == 'attr' and c[1][1] == model_t
+            b = bind(prog, MODEL + '._residuals', c[2], c[3])
+            nz = b.get('noise')
+            okn = nz is not None and nz[0] == 'call' and isinstance(nz[1], tuple) and \
+                nz[1][2] == '_find_noise' and nz[1][1] == model_t
+            if okn:
+                bn = bind(prog, MODEL + '._find_noise', nz[2], nz[3])
+                okn = bn.get('pars') == pv and bn.get('schema') == data_t
+            ok = okc and okn and b.get('pars') == pv and b.get('data') == data_t
+            detail = '_residuals(%s)' % ', '.join('%s=%s' % (k, show(x)[:50])
+                                                  for k, x in b.items())
+        check.require(ok, 'L7-residual-slots', where,
+                      'model._residuals(pars <- the trial values, data <- the data '
+                      'being fitted, noise <- model._find_noise(values, data))', loc,
+                      fail_detail=detail)
+    q = N + '.calc_residuals'
+    fd = prog.func(q)
+    loc = prog.loc(q, fd)
+    me, pv = [sym(a.arg) for a in fd.args.args[:2]]
+    it = Interp(prog, max_depth=1)
+    res = it.analyze(q)
+    residual_slots(res.ret, 'NmpfitStrategy.calc_residuals', loc, pv,
+                   intern(('attr', me, '_data')), intern(('attr', me, '_model')))
+    # prior residual: sqrt(lnprior(guess) - lnprior(value)), prior i at value i
+    v = res.ret
+    ok = v[0] == 'call' and v[1] == 'numpy.append' and len(v[2]) == 2
+    detail = 'returns %s' % show(v)[:160]
+    if ok:
+        pr = v[2][1]
+        ok = pr[0] == 'call' and pr[1] == 'numpy.sqrt' and len(pr[2]) == 1
+        df = as_difference(pr[2][0]) if ok else None
+        ok = ok and df is not None and df[0] == ('attr', me, '_guess_lnpriors')
+        if ok:
+            cur = df[1]
+            P = intern(('attr', me, '_parameters'))
+            ln = [x for x in subterms(cur) if x[0] == 'call' and
+                  isinstance(x[1], tuple) and x[1][0] == 'attr' and x[1][2] == 'lnprob']
+            ok = len(ln) == 1 and ln[0][1][1][0] == 'elem' and ln[0][1][1][1] == P and \
+                len(ln[0][2]) == 1 and ln[0][2][0][0] == 'elem' and \
+                ln[0][2][0][1] == pv and ln[0][2][0][2] == ln[0][1][1][2]
+            detail = 'prior residual is %s' % show(pr)[:200]
+    check.require(ok, 'L7-prior-residual', 'NmpfitStrategy.calc_residuals',
+                  'sqrt(lnprior_i(guess_i) - lnprior_i(value_i)) for every parameter i',
+                  loc, fail_detail=detail)
+    # guess log-priors: prior i at its own guess
+    q = N + '.initialize_fit'
+    fd = prog.func(q)
+    it = Interp(prog, max_depth=1, opaque=[MD + 'make_subset_data'])
+    res = it.analyze(q)
+    st = {e['attr']: e['value'] for e in it.effects if e['kind'] == 'setattr'}
+    me, model, data = [sym(a.arg) for a in fd.args.args[:3]]
+    g = st.get('_guess_lnpriors')
+    ok = g is not None
+    if ok:
+        ln = [x for x in subterms(g) if x[0] == 'call' and isinstance(x[1], tuple) and
+              x[1][0] == 'attr' and x[1][2] == 'lnprob']
+        ok = len(ln) == 1 and ln[0][1][1][0] == 'elem' and \
+            ln[0][1][1][1] == ('attr', model, '_parameters') and \
+            ln[0][2] == (('attr', ln[0][1][1], 'guess'),)
+    ok = ok and st.get('_model') == model and \
+        st.get('_parameters') == ('attr', model, '_parameters')
+    dt = st.get('_data')
+    ok = ok and dt is not None and roots_of(dt, (model, data)) == {data}
+    check.require(ok, 'L7-fit-state', 'NmpfitStrategy.initialize_fit',
+                  '_model <- model, _parameters <- model._parameters, _data <- data '
+                  '(or its subset), _guess_lnpriors[i] = prior_i.lnprob(prior_i.guess)',
+                  prog.loc(q, fd), fail_detail='stores %s' % {
+                      k: show(x)[:60] for k, x in st.items()})
+    # scipy residual closure
+    q = S + '.fit'
+    fd = prog.func(q)
+    loc = prog.loc(q, fd)
+    me, model, data = [sym(a.arg) for a in fd.args.args[:3]]
+    it = Interp(prog, max_depth=1, inline_new=False, opaque=[
+        S + '.minimize', S + '._calculate_unit_noise_errors_from_fit', MD + 'flat',
+        MD + 'make_subset_data', S + '.unscale_pars_from_minimizer'])
+    res = it.analyze(q)
+    mc = [c for c in it.calls if c['name'] == S + '.minimize']
+    if len(mc) == 1 and mc[0]['args'][-1][0] == 'closure':
+        node_c, cenv, cframe = it.closures[mc[0]['args'][-1][1]]
+        fr = Frame(cframe.module, cframe.owner, cframe.selfcls, cframe.selfname, 0,
+                   q + '.<residual>')
+        rv = sym('rescaled_values')
+        val = it.inline_closure(node_c, cenv, cframe, [rv], {}, fr, ())
+        un = [c for c in calls_in(val, 'unscale_pars_from_minimizer')]
+        okp = bool(un)
+        if okp:
+            b = bind(prog, S + '.unscale_pars_from_minimizer', un[0][2], un[0][3])
+            okp = b.get('parameters') == ('attr', model, '_parameters') and \
+                b.get('values') == rv
+        check.require(okp, 'L7-residual-slots', 'LeastSquaresScipyStrategy residual '
+                      'unscaling', 'trial values are unscaled with the model\'s '
+                      'parameters (parameters, values)', loc)
+        fitted = [x for x in subterms(res.ret) if x[0] == 'new' and
+                  x[1].endswith('UncertainValue')]
+        dterm = dict(res.ret[3]).get('data') if res.ret[0] == 'new' else None
+        if un and dterm is not None:
+            residual_slots(val, 'LeastSquaresScipyStrategy residual', loc, un[0],
+                           dterm, model)
+        else:
+            check.bad('L7-residual-slots', 'LeastSquaresScipyStrategy residual',
+                      'cannot identify the unscaled values / fitted data', loc)
+    else:
+        check.bad('L7-residual-slots', 'LeastSquaresScipyStrategy residual',
+                  'cannot find the residual function handed to minimize', loc)
+    # Model._residuals
+    q = MODEL + '._residuals'
+    fd = prog.func(q)
+    it = Interp(prog, max_depth=0)
+    res = it.analyze(q)
+    me, pars, data, noise = [sym(a.arg) for a in fd.args.args[:4]]
+    fw = intern(('call', ('attr', me, '_forward'), (pars, data), ()))
+    v = res.ret
+    inner = v[1] if v[0] == 'attr' and v[2] == 'values' else v
+    from hpstatic.poly import Canon
+    c0 = Canon()
+    want = intern(('bin', '/', ('bin', '-', fw, data), noise))
+    check.require(c0.equal(inner, want), 'L7-residual-formula', 'Model._residuals',
+                  '(forward(pars, data) - data) / noise', prog.loc(q, fd),
+                  fail_detail='returns %s' % show(v)[:160])
+
+
+def reported(check, prog):
+    me = sym('self')
+    iv = intern(('attr', me, 'intervals'))
+    for prop, attr in (('_parameters', 'guess'), ('_names', 'name')):
+        q = R + '.' + prop
+        fd = prog.func(q)
+        it = Interp(prog, max_depth=0)
+        res = it.analyze(q)
+        v = res.ret
+        if v[0] == 'call' and v[1] == 'list' and len(v[2]) == 1:
+            v = v[2][0]
+        ok = v[0] == 'comp' and len(v[3]) == 1 and v[3][0][1] == iv and \
+            v[2] == ('attr', v[3][0][0], attr)
+        check.require(ok, 'L8-reported-parameters', 'FitResult.' + prop,
+                      '[interval.%s for interval in self.intervals]' % attr,
+                      prog.loc(q, fd), fail_detail='returns %s' % show(res.ret)[:160])
+    q = R + '.parameters'
+    fd = prog.func(q)
+    it = Interp(prog, max_depth=1, opaque=[R + '._parameters', R + '._names'])
+    res = it.analyze(q)
+    v = res.ret
+    ok = v[0] == 'comp' and v[1] == 'dict' and len(v[3]) == 1
+    if ok:
+        key, val = v[2][1]
+        ok = key[0] == 'elem' and val[0] == 'elem' and key[2] == val[2] and \
+            key[1] == ('attr', me, '_names') and val[1] == ('attr', me, '_parameters')
+    check.require(ok, 'L8-reported-parameters', 'FitResult.parameters',
+                  'name i is paired with value i', prog.loc(q, fd),
+                  fail_detail='returns %s' % show(v)[:200])
+    pars = intern(('attr', me, '_parameters'))
+    for prop, cache, want in (
+            ('hologram', '_hologram',
+             intern(('call', ('attr', me, 'forward'), (pars,), ()))),
+            ('max_lnprob', '_max_lnprob',
+             intern(('call', ('attr', ('attr', me, 'model'), 'lnposterior'),
+                     (pars, ('attr', me, 'data')), ())))):
+        q = R + '.' + prop
+        fd = prog.func(q)
+        it = Interp(prog, max_depth=2, opaque=[R + '.forward', R + '._parameters'])
+        res = it.analyze(q)
+        v = res.ret
+        has = intern(('call', 'hasattr', (me, ('const', cache)), ()))
+        ok = v == ('ite', has, ('attr', me, cache), want)
+        st = [e for e in it.effects if e['kind'] == 'setattr' and e['attr'] == cache]
+        ok = ok and len(st) == 1 and st[0]['value'] == want and \
+            [(t, p) for t, p in st[0]['cond']] == [(has, False)]
+        check.require(ok, 'L8-best-fit-is-forward-model', 'FitResult.' + prop,
+                      '%s, computed once and remembered as .%s' % (show(want), cache),
+                      prog.loc(q, fd), fail_detail='returns %s; stores %s' % (
+                          show(v)[:200], [(e['attr'], show(e['value'])[:80]) for e in st]))
+    q = R + '.forward'
+    fd = prog.func(q)
+    it = Interp(prog, max_depth=1, opaque=[MD + 'detector_grid', MD + 'copy_metadata',
+                                           'holopy.core.utils.dict_without'])
+    res = it.analyze(q)
+    p = sym(fd.args.args[1].arg)
+    outs = []
+
+    def leaves(t):
+        if t[0] == 'ite':
+            leaves(t[2])
+            leaves(t[3])
+        else:
+            outs.append(t)
+    leaves(res.ret)
+    ok = bool(outs) and all(
+        o[0] == 'call' and o[1] == ('attr', ('attr', me, 'model'), 'forward') and
+        len(o[2]) == 2 and o[2][0] == p for o in outs)
+    schemas = []
+    for o in outs if ok else []:
+        t = o[2][1]
+        stack = [t]
+        while stack:
+            x = stack.pop()
+            if x[0] == 'ite':
+                stack += [x[2], x[3]]
+            else:
+                schemas.append(x)
+    ok = ok and any(x == ('attr', me, 'data') for x in schemas)
+    check.require(ok, 'L8-best-fit-is-forward-model', 'FitResult.forward',
+                  'self.model.forward(pars, <the data, or its remembered full grid>)',
+                  prog.loc(q, fd), fail_detail='returns %s' % show(res.ret)[:200])
+
+
+def wiring(check, prog):
+    """argument slots of the strategy-internal calls, and when fitting is refused"""
+    MODEL = INF + 'model.Model'
+    # NmpfitStrategy.fit -> initialize_fit(model, data), minimize(parameters, residuals)
+    q = N + '.fit'
+    fd = prog.func(q)
+    loc = prog.loc(q, fd)
+    me, model, data = [sym(a.arg) for a in fd.args.args[:3]]
+    it = Interp(prog, max_depth=1, inline_new=False, opaque=[
+        N + '.minimize', N + '.get_errors_from_minimizer', N + '.initialize_fit',
+        N + '.cleanup_from_fit'])
+    it.analyze(q)
+
+    def one(name):
+        cs = [c for c in it.calls if c['name'] == name]
+        return cs[0] if len(cs) == 1 else None
+    c = one(N + '.initialize_fit')
+    ok = c is not None and bind(prog, N + '.initialize_fit', c['args'][1:], c['kwargs']) \
+        == {'model': model, 'data': data}
+    check.require(ok, 'L7-call-slots', 'NmpfitStrategy.fit -> initialize_fit',
+                  'initialize_fit(model <- model, data <- data)', loc)
+    c = one(N + '.minimize')
+    ok = c is not None
+    if ok:
+        b = bind(prog, N + '.minimize', c['args'][1:], c['kwargs'])
+        ok = b.get('parameters') == ('attr', me, '_parameters') and \
+            b.get('obj_func') is not None and b['obj_func'][0] == 'method' and \
+            b['obj_func'][2] == 'calc_residuals'
+    check.require(ok, 'L7-call-slots', 'NmpfitStrategy.fit -> minimize',
+                  'minimize(parameters <- the model\'s priors, obj_func <- '
+                  'calc_residuals)', loc)
+    c = one(N + '.get_errors_from_minimizer')
+    ok = c is not None and len(c['args']) == 2 and c['args'][1][0] == 'idx' and \
+        c['args'][1][2] == num(0) and bool(calls_in(c['args'][1], 'minimize'))
+    check.require(ok, 'L7-call-slots', 'NmpfitStrategy.fit -> get_errors_from_minimizer',
+                  'the fitted values (first result of minimize) are what the '
+                  'intervals are built from', loc)
+    # unscale helpers, both strategies
+    q = S + '.unscale_pars_from_minimizer'
+    fd = prog.func(q)
+    it2 = Interp(prog, max_depth=0)
+    r2 = it2.analyze(q)
+    v = r2.ret
+    if v[0] == 'call' and v[1] == 'list' and len(v[2]) == 1:
+        v = v[2][0]
+    P, V = sym(fd.args.args[1].arg), sym(fd.args.args[2].arg)
+    ok = v[0] == 'comp' and len(v[3]) == 1
+    if ok:
+        lid = v[3][0][0][2] if v[3][0][0][0] == 'elem' else None
+        ok = v[2] == ('call', ('attr', ('elem', P, lid), 'unscale'),
+                      (('elem', V, lid),), ())
+    check.require(ok, 'L2-results-unscaled',
+                  'LeastSquaresScipyStrategy.unscale_pars_from_minimizer',
+                  'value i is unscaled with prior i (zip over the same lists)',
+                  prog.loc(q, fd), fail_detail='returns %s' % show(r2.ret)[:200])
+    q = S + '.minimize'
+    fd = prog.func(q)
+    it3 = Interp(prog, max_depth=1, opaque=[S + '.unscale_pars_from_minimizer'])
+    it3.analyze(q)
+    un = [c for c in it3.calls if c['name'] == S + '.unscale_pars_from_minimizer']
+    ok = len(un) == 1
+    if ok:
+        b = bind(prog, S + '.unscale_pars_from_minimizer', un[0]['args'][1:],
+                 un[0]['kwargs'])
+        ok = b.get('parameters') == sym(fd.args.args[1].arg) and \
+            b.get('values') is not None and b['values'][0] == 'attr' and \
+            b['values'][2] == 'x'
+    check.require(ok, 'L7-call-slots', 'LeastSquaresScipyStrategy.minimize -> unscale',
+                  'unscale(parameters <- the priors, values <- the optimiser\'s x)',
+                  prog.loc(q, fd))
+    q = S + '.fit'
+    fd = prog.func(q)
+    me, model, data = [sym(a.arg) for a in fd.args.args[:3]]
+    it4 = Interp(prog, max_depth=1, inline_new=False, opaque=[
+        S + '.minimize', S + '._calculate_unit_noise_errors_from_fit', MD + 'flat',
+        MD + 'make_subset_data', S + '.unscale_pars_from_minimizer'])
+    r4 = it4.analyze(q)
+    dterm = dict(r4.ret[3]).get('data') if r4.ret[0] == 'new' else None
+    un = [c for c in it4.calls if c['name'] == S + '.unscale_pars_from_minimizer']
+    ok = len(un) == 1 and dterm is not None
+    if ok:
+        b = bind(prog, S + '.unscale_pars_from_minimizer', un[0]['args'][1:],
+                 un[0]['kwargs'])
+        fn = [x for x in subterms(b.get('values', NONE)) if x[0] == 'call' and
+              isinstance(x[1], tuple) and x[1][0] == 'attr' and x[1][2] == '_find_noise']
+        ok = b.get('parameters') == ('attr', model, '_parameters') and len(fn) == 1
+        if ok:
+            bn = bind(prog, MODEL + '._find_noise', fn[0][2], fn[0][3])
+            ok = fn[0][1][1] == model and bn.get('schema') == dterm and \
+                bn.get('pars') is not None and bn['pars'][0] == 'idx' and \
+                bn['pars'][2] == num(0) and bool(calls_in(bn['pars'], 'minimize'))
+    check.require(ok, 'L7-call-slots', 'LeastSquaresScipyStrategy.fit errors',
+                  'errors = unscale(parameters <- priors, values <- noise(fitted '
+                  'values, fitted data) * unit errors)', prog.loc(q, fd))
+    # when fitting is refused / which data is fitted
+    for q, opaque in ((N + '.initialize_fit', [MD + 'make_subset_data']),
+                      (S + '.fit', [S + '.minimize', MD + 'flat', MD + 'make_subset_data',
+                                    S + '._calculate_unit_noise_errors_from_fit',
+                                    S + '.unscale_pars_from_minimizer'])):
+        fd = prog.func(q)
+        short = q.split('.')[-2] + '.' + q.split('.')[-1]
+        me, model, data = [sym(a.arg) for a in fd.args.args[:3]]
+        it5 = Interp(prog, max_depth=1, inline_new=False, opaque=opaque)
+        r5 = it5.analyze(q)
+        mp = [o for o in r5.raises if 'MissingParameter' in show(o.value)]
+        empty = intern(('cmp', '==', ('call', 'len', (('attr', model, '_parameters'),), ()),
+                        num(0)))
+        ok = len(mp) == 1 and [(t, p) for t, p in mp[0].cond] == [(empty, True)] and \
+            len(r5.raises) == 1
+        check.require(ok, 'L6-refuses-only-empty-models', short,
+                      'MissingParameter is raised iff the model has no parameters',
+                      prog.loc(q, fd), fail_detail='raising paths: %s' % [
+                          [(show(t)[:60], p) for t, p in o.cond] for o in r5.raises])
+        # the data that is fitted: everything when npixels is None, else a subset
+        sub = [c for c in it5.calls if c['name'] == MD + 'make_subset_data']
+        npx = intern(('attr', me, 'npixels'))
+        isnone = intern(('cmp', 'is', npx, NONE))
+        notnone = intern(('cmp', 'is not', npx, NONE))
+        ok = len(sub) == 1 and sub[0]['args'][0] == data and \
+            dict(sub[0]['kwargs']).get('pixels') == npx
+        if ok:
+            cs = [(t, p) for t, p in sub[0]['cond'] if t != empty]
+            ok = cs in ([(isnone, False)], [(notnone, True)])
+        check.require(ok, 'L4-subset-iff-requested', short,
+                      'make_subset_data(data, pixels=self.npixels) is used exactly when '
+                      'npixels is given', prog.loc(q, fd))
